@@ -137,6 +137,10 @@ def run(ctx):
     is_handler = lambda call, r: r.kind == 'dyn' and bool(r.targets) and any(   # noqa: E731
         set(t.qual for t in r.targets) <= tb for tb in tables)
 
+    # the INITIATOR flag and the SPI order of every message on a rekeyed IKE_SA follow from the role its constructor is given
+    from .c01 import successor_construction
+    successor_construction(ctx, 'M3')
+
     # ---------------------------------------------------------------- M1
     preq = ctx.func('ikesa.IkeSa._process_request')
     g, hnodes = window(ctx, 'M1', preq, 'peer_msg_id', is_handler, 'last_sent_response_data')
